@@ -217,6 +217,7 @@ func TestZZVerifC05(t *testing.T) {
 				ws := watchAll(a.r.State())
 				pendingBefore := a.r.Pub.VerifPending()
 				hintBefore := a.gc.PendingExpiration()
+				delaysBefore := lockDelays(a.r.State())
 				resp := runTxn(a, idx+1, cloneOps(v))
 				after := dump.Of(a.r.State())
 				run.Eval()
@@ -247,6 +248,10 @@ func TestZZVerifC05(t *testing.T) {
 					if resp.Results != nil {
 						run.Violation("C05:abort:results-returned", "aborted transaction returned results", wit())
 					}
+					if d := lockDelays(a.r.State()); d != delaysBefore {
+						run.Violation("C05:abort:lock-delay-armed", fmt.Sprintf("aborted transaction armed a lock-delay (keys with a pending lock-delay before: [%s], after: [%s]); ops=%v", delaysBefore, d, classes), wit())
+					}
+					run.Count("aborted_txn_lock_delay_checked")
 					// the guards up to the failing operation, against the independent statement of when
 					// a guard has to fail (walk: one operation at a time on a twin)
 					gw := newWorld()
@@ -379,6 +384,22 @@ func TestZZVerifC05(t *testing.T) {
 
 var reModifyIndex = regexp.MustCompile(`(?i)modifyindex:(\d+)`)
 var reIndexValue = regexp.MustCompile(`(?i)value:(\d+)`)
+
+// lockDelays lists the keys for which the store holds a pending lock-delay (the un-replicated map the
+// leader consults before accepting a lock): part of what an aborted transaction must leave alone.
+func lockDelays(s *state.Store) string {
+	_, ents, err := s.KVSList(nil, "", nil)
+	if err != nil {
+		return "error"
+	}
+	var out []string
+	for _, e := range ents {
+		if !s.KVSLockDelay(e.Key, nil).IsZero() {
+			out = append(out, e.Key)
+		}
+	}
+	return strings.Join(out, ",")
+}
 
 // readBacks returns read operations for everything the list writes: the twin (which commits every
 // operation before the next one runs) and the transaction must return the same for them.
